@@ -50,7 +50,8 @@ VALUE_SRC = ["null", "true", "false", "0", "1", "-1", "5", "10", "123456789012",
 TERMS = ["null", "None", "none", "true", "True", "TRUE", "false", "0", "1", "-1", "5", "10", "1.0", "1.5", "-0.0",
          "1e3", "1000.0", "5.0", " 5", "05", "+5", "a", "b", "ab", "abc", "B", "a b", "t", "T", "0x", "0x10", "16",
          "1_0", "_", "2020", "2020-01-01", "-01", "x", ".", "1.", "e", "0.5", "9", "2", "bc", "", "{[1]:2}", "{[]}", "(1,)",
-         "[1]", "nan", "inf", "1+1", "1.50", "0.0", "5.00", "0.50", "1000.00", "-1.0", "\u0663", "\u00b2", "3", "12", "\uff11\uff12"]     # floats in non-canonical decimal spelling
+         "[1]", "nan", "inf", "1+1", "1.50", "0.0", "5.00", "0.50", "1000.00", "-1.0", "\u0663", "\u00b2", "3", "12", "\uff11\uff12",
+         "2j", "1e3j", "3+4j", "-0j", "1j", "b'5'", "0o17", "1e400", "-1e400", "1e-400", "5L", "0b11", "...", "5,", "5,6"]     # floats in non-canonical decimal spelling; literals of other Python types
 REGEX_TERMS = ["a", "^a", "b$", "^a.*c$", ".", "^$", "[0-9]+", "^[0-9.]+$", "^-", "0x", "(?i)true", "^.$", "a|b",
                "\\.", "x*", "^5", " ", "_", "^None$", "T"]
 
